@@ -19,7 +19,7 @@ def validate_everything(b, tag):
 def corner_cases(tier):
     def fn(b, sym):
         case = sym.choose("case", ["empty-root", "only-empty-dirs", "sf-below-nested", "sf-folder-empty", "exit-10", "exit-11", "new-files",
-                                   "n-flag", "renames", "flatten", "flatten-failed", "creator", "formats", "nested-n", "sf-then-folder", "special-names", "format-history-order", "sf-overlapping"])
+                                   "n-flag", "renames", "flatten", "flatten-failed", "creator", "formats", "nested-n", "sf-then-folder", "special-names", "format-history-order", "sf-overlapping", "nested-folder-rename"])
         b.note(case)
         if case == "empty-root":
             b.mkdir("R")
@@ -105,6 +105,17 @@ def corner_cases(tier):
             b.mkfile("R/A/a.txt", 2)
             r = b.run("create", root="R/A", h=["md5"], n=sym.flag("child_n"))
             r = b.run("create", root="R", h=["c4"], n=sym.flag("root_n"))
+        elif case == "nested-folder-rename":
+            # a stack of three histories; the folder of the innermost (or of the middle) one is renamed; create -dr from the top
+            b.mkfile("R/s.txt", 1)
+            b.mkfile("R/A/a.txt", 2)
+            b.mkfile("R/A/B/b.txt", 3)
+            for hr in ("R/A/B", "R/A", "R"):
+                r = b.run("create", root=hr, h=["md5"])
+            which = sym.choose("renamed_folder", ["R/A/B", "R/A"])
+            b.rename(which, which + "2")
+            r = b.run("create", root="R", h=["md5"], dr=True, n=sym.flag("n"))
+            b.require(r.exc is None or r.exit >= 10 or r.exit == 1, "no-internal-error", "create -dr after renaming %s: %s" % (which, r))
         elif case == "sf-overlapping":
             # arguments that reach the same file more than once: given twice, given and inside a given folder, spelled two ways
             b.mkfile("R/a.txt", 1)
